@@ -41,6 +41,8 @@ type limitMon struct {
 	bursts              int
 	offerAt             []int64 // time each element was offered to the discipline (producer side)
 	prompt              bool
+	stolen              map[int]bool // mode "thief": elements taken by the other reader of the input
+	lastOut             int
 }
 
 func (m *limitMon) Hash() uint64 {
@@ -53,6 +55,9 @@ func (m *limitMon) Hash() uint64 {
 	}
 	if m.inClosed {
 		h = vrt.Mix(h, 1)
+	}
+	for v := range m.stolen {
+		h += vrt.Mix(0x57, uint64(v))
 	}
 	if m.outClosed {
 		h = vrt.Mix(h, 2, uint64(m.closedAt))
@@ -75,8 +80,8 @@ func (m *limitMon) OnEvent(w *vrt.World, ev *vrt.Event) {
 		if !m.inClosed {
 			m.f.fail("C12", "output closed before the input was closed")
 		}
-		if m.next != m.written || m.in.Len() != 0 {
-			m.f.fail("C12", "output closed although only %d of %d written elements were forwarded", m.next, m.written)
+		if m.next+len(m.stolen) != m.written || m.in.Len() != 0 {
+			m.f.fail("C12", "output closed although only %d of %d written elements were forwarded (%d taken by another reader)", m.next, m.written, len(m.stolen))
 		}
 	case ev.Kind == vrt.EvRecv && ev.Ch == m.in && ev.T.Lib && ev.OK:
 		m.accepted++
@@ -84,7 +89,14 @@ func (m *limitMon) OnEvent(w *vrt.World, ev *vrt.Event) {
 		now := w.Clock
 		if !vrt.RaceBuild {
 			v := ev.Val.(int)
-			if v != m.next {
+			if m.cfg.Mode == "thief" {
+				// another goroutine also reads the input: the output is, in order, exactly
+				// what that reader did not take
+				if v <= m.lastOut || v >= m.written || m.stolen[v] {
+					m.f.fail("C12", "output element %d is %d, which is not an element of the input that is still due (last output %d, %d written, taken by the other reader %v): phantom, duplicate or reordered", m.next, v, m.lastOut, m.written, m.stolen)
+				}
+				m.lastOut = v
+			} else if v != m.next {
 				m.f.fail("C12", "output element %d is %d: the output is not the input sequence in order (loss, duplication or reordering)", m.next, v)
 			}
 		}
@@ -157,9 +169,9 @@ func newLimit(c Cfg, w *vrt.World) *explore.Instance {
 	if c.Q > 1<<40 {
 		q = 1 << 40 // huge quantities: the bounds are never reached, keep the arithmetic in range
 	}
-	m := &limitMon{cfg: c, Q: q, I: c.I}
+	m := &limitMon{cfg: c, Q: q, I: c.I, stolen: map[int]bool{}, lastOut: -1}
 	m.f = failer{c, w}
-	m.prompt = c.Late == 0 && (len(c.Delays) == 0 || (len(c.Delays) == 1 && c.Delays[0] == 0))
+	m.prompt = c.Mode != "thief" && c.Late == 0 && (len(c.Delays) == 0 || (len(c.Delays) == 1 && c.Delays[0] == 0))
 	w.Monitors = append(w.Monitors, m)
 	total := 0
 	if len(c.N) > 0 {
@@ -234,6 +246,25 @@ func newLimit(c Cfg, w *vrt.World) *explore.Instance {
 				vrt.Close(in)
 			})
 		}
+		if c.Mode == "thief" {
+			// ordinary fan-out: a second goroutine receives from the same input channel
+			// (at most R elements, at any time)
+			vrt.Spawn("thief", func() {
+				k := c.R
+				if k == 0 {
+					k = 1
+				}
+				for i := 0; i < k; i++ {
+					vrt.Mark(uint64(i) + 0x7e1f)
+					v, ok := vrt.Recv2(in)
+					if !ok {
+						return
+					}
+					m.stolen[v] = true
+				}
+				vrt.Mark(0x7e1e)
+			})
+		}
 		vrt.Spawn("consumer", func() {
 			n := 0
 			if c.Mode == "outputs" {
@@ -264,8 +295,8 @@ func newLimit(c Cfg, w *vrt.World) *explore.Instance {
 			return fmt.Sprintf("%s: the system does not terminate: %s", c.Prop, w.Describe())
 		}
 		if want(c, "C12") {
-			if m.nrecv != total || m.next != total {
-				return fmt.Sprintf("C12: input closed and output drained, but %d of %d elements were forwarded and %d received", m.next, total, m.nrecv)
+			if m.nrecv+len(m.stolen) != total || m.next+len(m.stolen) != total {
+				return fmt.Sprintf("C12: input closed and output drained, but %d of %d elements were forwarded and %d received (%d taken by another reader)", m.next, total, m.nrecv, len(m.stolen))
 			}
 			if !m.outClosed {
 				return "C12: the output was not closed"
